@@ -146,6 +146,11 @@ def r2_digest_input(cx):
     rets = [r for r in walk_body(xv.body) if isinstance(r, ast.Return)]
     ok = ok and len(rets) == 1 and bool(hp) and U(rets[0].value) == "(result, %s)" % U(hp[0].targets[0])
     cx.require(ok, vd[0] if vd else xv, "the signature is verified against that digest, and the same digest is returned for the revocation check", construct=short(vd[0]) if vd else "(none)")
+    # what is hashed is what the loader built: a loader told to tolerate repeated mapping keys silently keeps one of the values, so the digest no longer covers
+    # the other (which another YAML consumer may well be the one to use)
+    dup = [a for a in ast.walk(m.tree) if isinstance(a, ast.Assign) and any(isinstance(t, ast.Attribute) and t.attr == "allow_duplicate_keys" for t in a.targets) and U(a.value) not in ("False", "None")] + \
+        [k for c in ast.walk(m.tree) if isinstance(c, ast.Call) for k in c.keywords if k.arg == "allow_duplicate_keys" and U(k.value) not in ("False", "None")]
+    cx.require(not dup, dup[0] if dup else m.tree.body[0], "the playbook loader rejects documents with repeated mapping keys (no allow_duplicate_keys)", construct=short(dup[0]) if dup else "loader configuration without allow_duplicate_keys")
     hf = m.func("hash_play", "C18.R2")
     hp0 = params(hf)[0]
     shas = [a for a in walk_body(hf.body) if isinstance(a, ast.Assign) and U(a.value) == "hashlib.sha256()"]
